@@ -233,7 +233,9 @@ def c12(tier):
     rep.samples.append({"model_behaviour": [c["op"] for c in beh[0]]})
     run_writer_programs(rep, wd, scs, "model")
     # transition coverage: one call sequence for every (state class, call, result) transition of the model's complete state graph
-    cov, r = cover_behaviours(wd, "MC_WriterCover.cfg" if tier == "thorough" else "MC_WriterCover_small.cfg")
+    # (the MaxFiles = 2 graph - 6.4 M states, one worker because the class register is per worker, about 50 minutes - only on request:
+    #  VERIF_DEEP=1; the thorough tier replays ALL classes of the MaxFiles = 1 graph, the quick tier a sample of them)
+    cov, r = cover_behaviours(wd, "MC_WriterCover.cfg" if (tier == "thorough" and os.environ.get("VERIF_DEEP")) else "MC_WriterCover_small.cfg")
     rep.add_mc(r, "MC_WriterCover")
     rep.notes["transition_classes_model"] = len(cov)
     if tier == "quick":
